@@ -735,14 +735,45 @@ class DA:
     def searchsorted(self, v, side="left"):
         return A.searchsorted(self.data, v, side)
 
-    def sortby(self, *a, **k):
-        raise Outside("sortby")
+    def sortby(self, variables, ascending=True):
+        """contract of DataArray.sortby for 1-D coordinate keys: reorder along the key's
+        dimension by the (stable) argsort of the key"""
+        if isinstance(variables, (str, DA)):
+            variables = [variables]
+        out = self
+        for v in reversed(list(variables)):
+            key = out.coords[v] if isinstance(v, str) else v
+            if key.ndim != 1:
+                raise Outside("sortby n-d key")
+            d = key.dims[0]
+            perm = A.argsort1d(key.data)
+            if not ascending:
+                perm = perm[::-1]
+            out = out.isel({d: perm})
+        return out
 
-    def interp(self, *a, **k):
-        raise Outside("interp")
+    def interp(self, coords=None, method="linear", assume_sorted=False, kwargs=None, **kw):
+        """contract of DataArray.interp (linear, 1-D per dimension): at a target t inside
+        [x_k, x_k+1] the value is the linear interpolant, at a node the node value, outside the
+        source range NaN or kwargs['fill_value']; assume_sorted=True REQUIRES an increasing
+        source coordinate (ghost event), otherwise the source is sorted first"""
+        cs = dict(coords or {})
+        cs.update(kw)
+        if method != "linear":
+            raise Outside("interp method " + str(method))
+        fill = (kwargs or {}).get("fill_value", None)
+        out = self
+        for d, target in cs.items():
+            out = _interp_one(out, d, target, assume_sorted, fill)
+        return out
 
-    def rolling(self, *a, **k):
-        raise Outside("rolling")
+    def rolling(self, dim=None, center=False, min_periods=None, **kw):
+        dim = dict(dim or {})
+        dim.update(kw)
+        return _Rolling(self, dim, center)
+
+    def interp_like(self, other, **kw):
+        return self.interp({d: other.coords[d] for d in ("freq", "dir") if d in other.coords and d in self.dims}, **kw)
 
 
 def _kind_of(o):
@@ -802,10 +833,141 @@ def _is_scalar_key(k):
     return not isinstance(k, (slice, list, tuple, Arr))
 
 
+def _interp_one(da, d, target, assume_sorted, fill):
+    if d not in da.dims:
+        raise ValueError(f"dimension {d!r} not in array")
+    src = da
+    if not assume_sorted:
+        src = da.sortby(d)
+    else:
+        CTX.events.append(("interp_assume_sorted", d))
+    xs = src.coords[d]
+    n = conc(src.extent(d))
+    if n is None or n > 12:
+        raise Outside("interp over a symbolic-length source coordinate (bounded extents only)")
+    if isinstance(target, DA):
+        tarr = target.data
+        tda = target
+    else:
+        tarr = asarr(target)
+        tda = None
+    scalar_target = tarr.ndim == 0
+    if tarr.ndim > 1:
+        raise Outside("interp onto n-d target")
+    x = [xs.at({d: Sym(k)}) for k in range(n)]
+    if assume_sorted and n > 1:
+        inc = Sym(True)
+        for k in range(n - 1):
+            inc = inc & (x[k] < x[k + 1])
+        CTX.events.append(("interp_source_increasing", d, inc.t))
+    m = Sym(1) if scalar_target else tarr.shape_[0]
+    fillv = NANSYM if fill is None else as_sym(fill)
+
+    def fn(idx):
+        t = tarr._as_sym() if scalar_target else tarr.get((idx[d],))
+        res = fillv
+        for k in range(n - 2, -1, -1):
+            a, b = x[k], x[k + 1]
+            va = src.at(dict(idx, **{d: Sym(k)}))
+            vb = src.at(dict(idx, **{d: Sym(k + 1)}))
+            lerp = (va * (b - t) + vb * (t - a)) / (b - a)
+            res = ite((t >= a) & (t <= b), ite(t == a, va, ite(t == b, vb, lerp)), res)
+        if n == 1:
+            res = ite(t == x[0], src.at(dict(idx, **{d: Sym(0)})), fillv)
+        return res
+
+    dims = tuple(dd for dd in src.dims if not (scalar_target and dd == d))
+    shape = [m if dd == d else src.extent(dd) for dd in dims]
+    coords = {k: c for k, c in src.coords.items() if d not in c.dims}
+    if scalar_target:
+        coords[d] = DA(Arr.scalar(tarr._as_sym()), dims=(), name=d)
+    else:
+        coords[d] = DA(tarr, dims=(d,), name=d, attrs=(tda.attrs if tda is not None else xs.attrs))
+    out = DA.build(dims, shape, fn, coords=coords, name=da.name, attrs=da.attrs, kind="f")
+    return out
+
+
+class _Rolling:
+    """contract of DataArray.rolling(dim={d: w}, center=True).mean(): value at an index is the
+    mean over the centred window, NaN when the window leaves the array (min_periods = window)"""
+
+    def __init__(self, da, dim, center):
+        self.da, self.dim, self.center = da, dim, center
+
+    def mean(self, **kw):
+        da = self.da
+        wins = {}
+        for d, w in self.dim.items():
+            w = conc(ext(w))
+            if w is None:
+                raise Outside("symbolic rolling window")
+            wins[d] = w
+        if not self.center:
+            raise Outside("rolling without center")
+        total = 1
+        for w in wins.values():
+            total *= w
+
+        def fn(idx):
+            offs = [()]
+            for d, w in wins.items():
+                h = w // 2
+                offs = [o + ((d, k),) for o in offs for k in range(-h, w - h)]
+            acc = None
+            ok = Sym(True)
+            for d, w in wins.items():
+                h = w // 2
+                ok = ok & (as_sym(idx[d]) - h >= 0) & (as_sym(idx[d]) + (w - h - 1) < ext(da.extent(d)))
+            for o in offs:
+                sub = dict(idx)
+                for d, k in o:
+                    sub[d] = as_sym(idx[d]) + k
+                v = da.at(sub)
+                acc = v if acc is None else acc + v
+            mean = acc / total
+            return ite(ok, mean, NANSYM)
+
+        return DA.build(da.dims, [da.extent(d) for d in da.dims], fn, coords=dict(da.coords), name=da.name,
+                        attrs=da.attrs, kind="f")
+
+
+def _sel_labels(da, d, labels):
+    """sel(dim=array of labels): exact match of every label (KeyError otherwise)"""
+    c = da.coords[d]
+    n = conc(c.extent(d))
+    larr = labels.data if isinstance(labels, DA) else asarr(labels)
+    if n is None or n > 16:
+        raise Outside("sel by labels on a symbolic-length index")
+    if larr.ndim == 0:
+        raise Outside("sel by scalar label")
+    m = conc(larr.shape_[0])
+    if m is None:
+        raise Outside("sel by a symbolic number of labels")
+    x = [c.at({d: Sym(k)}) for k in range(n)]
+    idxs = []
+    for q in range(m):
+        t = larr.get((Sym(q),))
+        found = Sym(False)
+        pos = Sym(0)
+        for k in range(n - 1, -1, -1):
+            hit = x[k] == t
+            found = found | hit
+            pos = ite(hit, Sym(k), pos)
+        if not bool(found):
+            raise KeyError(f"not all values found in index {d!r}")
+        idxs.append(pos)
+    out = da.isel({d: idxs})
+    if isinstance(labels, DA):
+        out.coords[d] = _as_coord(d, labels, out.dims)
+    return out
+
+
 def _sel_one(da, d, v, method):
     if d not in da.coords:
         raise KeyError(d)
     c = da.coords[d]
+    if isinstance(v, (DA, Arr, list)) and not isinstance(v, slice):
+        return _sel_labels(da, d, v)
     if isinstance(v, slice):
         if v.step is not None:
             raise Outside("sel with step")
